@@ -152,6 +152,8 @@ pub fn spec_c12() -> PropSpec {
         tape_len: 400,
         make: || vec![Box::new(CycKf::new(Box::new(ValueOracle::new()))), Box::new(CycStats::new(12))],
         nt_rule: "",
+        engine: "seq",
+        runner: None,
     }
 }
 
@@ -164,6 +166,8 @@ pub fn spec_c13() -> PropSpec {
         tape_len: 400,
         make: || vec![Box::new(CycKf::new(Box::new(FallbackKf::new()))), Box::new(CycStats::new(13))],
         nt_rule: "",
+        engine: "seq",
+        runner: None,
     }
 }
 
@@ -177,6 +181,8 @@ pub fn spec_c14() -> PropSpec {
         tape_len: 400,
         make: || vec![Box::new(CycKf::new(Box::new(ValueOracle::new()))), Box::new(CycStats::new(14))],
         nt_rule: "",
+        engine: "seq",
+        runner: None,
     }
 }
 
@@ -190,6 +196,8 @@ pub fn spec_c15() -> PropSpec {
         tape_len: 400,
         make: || vec![Box::new(CycKf::new(Box::new(ValueOracle::new()))), Box::new(CycStats::new(15))],
         nt_rule: "",
+        engine: "seq",
+        runner: None,
     }
 }
 
@@ -403,5 +411,54 @@ impl Oracle for CycKf {
             l.push("kf-stale-deps-manifested");
         }
         l
+    }
+}
+
+// ---------------------------------------------------------------------------------------------
+// C22 (single handle): fault enumeration over small programs
+// ---------------------------------------------------------------------------------------------
+
+pub fn spec_c22_acyclic() -> PropSpec {
+    let mut pf = Profile::base();
+    pf.max_slots = 2;
+    pf.max_cells = 1;
+    pf.max_nodes = 5;
+    pf.max_ops = 4;
+    pf.max_steps = 10;
+    pf.min_steps = 3;
+    pf.durs = [1, 0, 0, 0];
+    pf.kinds = [5, 1, 1, 1, 2, 1, 0, 0, 0, 0];
+    pf.ops = [4, 5, 2, 4, 3, 3, 0, 0, 4, 2, 2, 1, 1];
+    pf.steps = [9, 6, 1, 1, 1, 1, 1, 1, 0];
+    pf.sym_dom = 4;
+    PropSpec {
+        id: "C22",
+        profile: pf,
+        tape_len: 220,
+        make: || vec![Box::new(ValueOracle::new())],
+        nt_rule: "",
+        engine: "fault",
+        runner: Some(crate::faulty::run_fault_case),
+    }
+}
+
+pub fn spec_c22_lattice() -> PropSpec {
+    let mut pf = lat_profile();
+    pf.max_nodes = 6;
+    pf.max_ops = 3;
+    pf.max_steps = 10;
+    pf.min_steps = 3;
+    pf.durs = [1, 0, 0, 0];
+    pf.kinds[6] = 3;
+    pf.kinds[7] = 2;
+    pf.kinds[8] = 1;
+    PropSpec {
+        id: "C22",
+        profile: pf,
+        tape_len: 220,
+        make: || vec![Box::new(CycKf::new(Box::new(FallbackKf::new())))],
+        nt_rule: "",
+        engine: "faultlat",
+        runner: Some(crate::faulty::run_fault_case),
     }
 }
